@@ -1,0 +1,78 @@
+// Verification hooks, compiled only with the `verif-hooks` cargo feature (off by default).
+// Not part of the public API; used by the external verification harness in /verif to make
+// every lock acquisition in `chunker.rs` a controllable scheduling point.
+
+//! Verification hooks (feature `verif-hooks`).
+
+use std::ops::{Deref, DerefMut};
+use std::sync::{Arc, LockResult, PoisonError, RwLock};
+
+/// An event reported by the instrumented [`Mutex`].
+#[derive(Copy, Clone, Debug, PartialEq, Eq)]
+pub enum Event {
+    /// The calling thread is about to acquire the lock (it holds no chunker lock now).
+    Acquire,
+    /// The calling thread has just released the lock.
+    Release,
+}
+
+type Callback = Arc<dyn Fn(Event) + Send + Sync>;
+
+static CALLBACK: RwLock<Option<Callback>> = RwLock::new(None);
+
+/// Installs (or with `None`, removes) the process-global callback.
+pub fn set_callback(cb: Option<Callback>) {
+    *CALLBACK.write().unwrap_or_else(PoisonError::into_inner) = cb;
+}
+
+fn notify(ev: Event) {
+    let cb = CALLBACK
+        .read()
+        .unwrap_or_else(PoisonError::into_inner)
+        .clone();
+    if let Some(cb) = cb {
+        cb(ev);
+    }
+}
+
+/// Drop-in for `std::sync::Mutex` (the subset `chunker.rs` uses) which reports to the callback.
+pub struct Mutex<T>(std::sync::Mutex<T>);
+
+impl<T> Mutex<T> {
+    /// Like `std::sync::Mutex::new`.
+    pub fn new(t: T) -> Self {
+        Mutex(std::sync::Mutex::new(t))
+    }
+
+    /// Like `std::sync::Mutex::lock`, reporting `Acquire` first.
+    pub fn lock(&self) -> LockResult<MutexGuard<'_, T>> {
+        notify(Event::Acquire);
+        match self.0.lock() {
+            Ok(g) => Ok(MutexGuard(Some(g))),
+            Err(p) => Err(PoisonError::new(MutexGuard(Some(p.into_inner())))),
+        }
+    }
+}
+
+/// Guard returned by [`Mutex::lock`]; reports `Release` after unlocking.
+pub struct MutexGuard<'a, T>(Option<std::sync::MutexGuard<'a, T>>);
+
+impl<T> Deref for MutexGuard<'_, T> {
+    type Target = T;
+    fn deref(&self) -> &T {
+        self.0.as_ref().expect("guard is live")
+    }
+}
+
+impl<T> DerefMut for MutexGuard<'_, T> {
+    fn deref_mut(&mut self) -> &mut T {
+        self.0.as_mut().expect("guard is live")
+    }
+}
+
+impl<T> Drop for MutexGuard<'_, T> {
+    fn drop(&mut self) {
+        drop(self.0.take());
+        notify(Event::Release);
+    }
+}
